@@ -751,4 +751,56 @@ theorem safeguard_never_worse (P : NProb n m p K) (base alt : Fin n → K) (hb :
   · exact hb
   · rename_i h; exact le_trans (not_lt.mp h) hb
 
+/-! ### the hypotheses are met by every checked proposal -/
+
+theorem checkedProjN_ok (P : NProb n m p K)
+    (propose : (Fin n → Bool) → (Fin n → Bool) → (Fin m → Bool) → (Fin m → Bool) → (Fin n → K) × (Fin m → K) → (Fin n → K) × (Fin m → K))
+    (nAct : (Fin n → Bool) → (Fin n → Bool) → (Fin m → Bool) → (Fin m → Bool) → ℕ) :
+    NOracleOK P { proj := checkedProjN P propose, nAct := nAct } := by
+  refine ⟨?_, ?_, ?_⟩
+  · intro fl fu fs fb v i hi
+    simp only [checkedProjN]
+    split
+    · rename_i h; exact h.1 i hi
+    · rfl
+  · intro fl fu fs fb v j hj
+    simp only [checkedProjN]
+    split
+    · rename_i h; exact h.2.1 j hj
+    · rfl
+  · intro fl fu fs fb v j hj
+    simp only [checkedProjN]
+    split
+    · rename_i h; exact h.2.2 j hj
+    · simp only [mulVec_zero, Pi.zero_apply, sub_zero]
+
+theorem checked_params_ok (P : NProb n m p K) (propose : (Fin n → K) → (Fin n → K) → K)
+    (proposeSlack : (Fin m → K) → (Fin m → K) → K) (thr : (Fin n → K) → (Fin m → K) → K) (hthr : ∀ g t, 0 ≤ thr g t) (rtol : K) :
+    NQOK P { aTr := checkedATrN P.delta propose, aTrSlack := slackATr proposeSlack, descThr := thr, tiny := 0, rtol := rtol } := by
+  refine ⟨hthr, ?_, ?_, ?_⟩
+  · intro step sd a hb ha
+    simp only [checkedATrN] at ha
+    split at ha
+    · cases ha
+    · split at ha
+      · rename_i hc
+        simp only [Option.some.injEq] at ha
+        subst ha
+        exact ⟨hc.1, fun t ht0 hta => ball_convex step sd _ _ t hb hc.2 ht0 hta⟩
+      · simp only [Option.some.injEq] at ha
+        subst ha
+        refine ⟨le_refl _, fun t ht0 hta => ?_⟩
+        have : t = 0 := le_antisymm hta ht0
+        rw [this, zero_smul, add_zero]; exact hb
+  · intro step sd h
+    simp only [checkedATrN] at h
+    split at h
+    · assumption
+    · split at h <;> cases h
+  · intro g d a h
+    simp only [slackATr] at h
+    split at h
+    · cases h
+    · simp only [Option.some.injEq] at h; rw [← h]; exact le_max_right _ _
+
 end Cobyqa.Ntcg
